@@ -529,6 +529,9 @@ func wireRequest(c *req.Client, seq *atomic.Int64, base, tag, kind string, lr *h
 		// a retried request (stale keep-alive connection) gets a second GotConn: keep the last
 		gotSeq.Store(seq.Add(1))
 		got.Store(&gotInfo{Conn: id, Reused: info.Reused, WasIdle: info.WasIdle})
+		if strings.HasSuffix(tag, "3") {
+			c.GetTransport().CloseIdleConnections() // at the moment the connection has been handed over
+		}
 	}}
 	rq := c.R().SetContext(httptrace.WithClientTrace(context.Background(), trace)).SetHeader("X-Tag", tag).DisableAutoReadResponse()
 	method := "GET"
